@@ -65,6 +65,66 @@ def b_minmax(ex, st, a, m, c):
     return T.fbin("f" + m.group(1), a[0], a[1])
 
 
+@builtin(r"f64::<impl f64>::(round|floor|ceil|trunc)$", "f64::round (half away from zero) / floor / ceil / trunc")
+def b_round(ex, st, a, m, c):
+    return T.fun("f" + m.group(1), a[0])
+
+
+@builtin(r"f64::<impl f64>::sin_cos$", "f64::sin_cos = (sin, cos) uninterpreted")
+def b_sincos(ex, st, a, m, c):
+    if not T.is_t(a[0]):
+        import math
+        return Agg("tuple", [math.sin(a[0]), math.cos(a[0])])
+    return Agg("tuple", [T.uf("sin", [a[0]]), T.uf("cos", [a[0]])])
+
+
+@builtin(r"f64::<impl f64>::clamp$", "f64::clamp(x, lo, hi) (NaN stays NaN)")
+def b_clamp(ex, st, a, m, c):
+    x, lo, hi = a
+    return T.ite(T.fcmp("flt", x, lo), lo, T.ite(T.fcmp("fgt", x, hi), hi, x))
+
+
+@builtin(r"f64::<impl f64>::rem_euclid$", "f64::rem_euclid")
+def b_remeuclid(ex, st, a, m, c):
+    r = T.fbin("frem", a[0], a[1])
+    return T.ite(T.fcmp("flt", r, 0.0), T.fbin("fadd", r, T.fun("fabs", a[1])), r)
+
+
+@builtin(r"f64::<impl f64>::mul_add$", "f64::mul_add = x*y+z (single rounding ignored)")
+def b_muladd(ex, st, a, m, c):
+    return T.fbin("fadd", T.fbin("fmul", a[0], a[1]), a[2])
+
+
+@builtin(r"f64::<impl f64>::hypot$", "f64::hypot = sqrt(x^2+y^2)")
+def b_hypot(ex, st, a, m, c):
+    return T.fun("fsqrt", T.fbin("fadd", T.fbin("fmul", a[0], a[0]), T.fbin("fmul", a[1], a[1])))
+
+
+@builtin(r"f64::<impl f64>::recip$", "f64::recip")
+def b_recip(ex, st, a, m, c):
+    return T.fbin("fdiv", 1.0, a[0])
+
+
+@builtin(r"f64::<impl f64>::signum$", "f64::signum (NaN outside)")
+def b_signum(ex, st, a, m, c):
+    return T.ite(T.fcmp("flt", a[0], 0.0), -1.0, 1.0)
+
+
+@builtin(r"f64::<impl f64>::(is_nan)$", "f64::is_nan")
+def b_isnan(ex, st, a, m, c):
+    return T.bnot(T.fcmp("feq", a[0], a[0]))
+
+
+@builtin(r"f64::<impl f64>::(tan|atan|asin|sinh|cosh|tanh|ln|log10|log2|exp2|cbrt)$", "uninterpreted transcendental")
+def b_trans2(ex, st, a, m, c):
+    return T.uf(m.group(1), [a[0]])
+
+
+@builtin(r"f64::<impl f64>::atan2$", "uninterpreted atan2")
+def b_atan2(ex, st, a, m, c):
+    return T.uf("atan2", [a[0], a[1]])
+
+
 @builtin(r"f64::<impl f64>::to_radians$", "f64::to_radians = x * (PI/180)")
 def b_torad(ex, st, a, m, c):
     return T.fbin("fmul", a[0], 3.141592653589793 / 180.0)
@@ -754,3 +814,35 @@ def b_log(ex, st, a, m, c):
     if c == "max_level":
         return mk_enum("LevelFilter", "Off", [])
     return Agg("tuple", [])
+
+
+# ------------------------------------------------------------------------------- opaque shape (C03/C02)
+# Binding the generic parameter S to "opaque::Shape" keeps the state's own code (loops, image
+# enumeration, weights, normalisation) and makes the shape's methods uninterpreted.
+
+@builtin(r"^<opaque::Shape as traits::Shape>::transform$", "opaque shape: transform(t) remembers the placement")
+def b_op_transform(ex, st, a, m, c):
+    t = deref_arg(ex, st, a[1])
+    return Agg("struct:OpaqueShape", list(t.fields[0].fields[:6]))
+
+
+@builtin(r"^<opaque::Shape as traits::Potential>::energy$", "opaque shape: energy = uninterpreted E(placement1, placement2)")
+def b_op_energy(ex, st, a, m, c):
+    p, q = deref_arg(ex, st, a[0]), deref_arg(ex, st, a[1])
+    return T.uf("E", list(p.fields) + list(q.fields))
+
+
+@builtin(r"^<opaque::Shape as traits::Intersect>::intersects$", "opaque shape: intersects = uninterpreted predicate")
+def b_op_intersects(ex, st, a, m, c):
+    p, q = deref_arg(ex, st, a[0]), deref_arg(ex, st, a[1])
+    return T.uf("X", list(p.fields) + list(q.fields), "B")
+
+
+@builtin(r"^<opaque::Shape as traits::Intersect>::area$", "opaque shape: area = symbolic constant")
+def b_op_area(ex, st, a, m, c):
+    return T.var("shape_area", "F")
+
+
+@builtin(r"^<opaque::Shape as traits::Shape>::enclosing_radius$", "opaque shape: enclosing radius = symbolic constant")
+def b_op_radius(ex, st, a, m, c):
+    return T.var("shape_R", "F")
